@@ -42,6 +42,11 @@ def draw_cfg(st):
     world = ["seq", "threads", "async"][st.weighted([50, 30, 20], "world")]
     cfg = {
         "world": world,
+        # with failing destinations a report about the remote action's end message is logged in whatever
+        # context the calling thread is left with; in a *copied* context that is the originating thread's
+        # Action, used from two threads at once -- which eliot documents as unsupported -- so that
+        # invocation style is not combined with destination faults
+        "preserve_how": ["thread", "inline"],
         "max_ops": [10, 25, 45][st.choose(3, "size")],
         "max_depth": 2 + st.choose(5, "depth"),
         "value_depth": 0,
